@@ -466,6 +466,9 @@ func parsePossibilityStage(input *input, stageSet *StageSet) error {
 			if stage.Not {
 				return errors.New("Double-negation (!!) of a single Stage is not permitted :(")
 			}
+			if stage.Name != "" {
+				return errors.New("A Stage can only be negated by a leading '!'")
+			}
 			stage.Not = !stage.Not
 		case '>', ' ', '\t', '\r', '\n': /* Let our parent deal with these */
 			stageSet.Stages = append(stageSet.Stages, stage)
